@@ -2,15 +2,16 @@
 from hypothesis import strategies as st
 
 from .. import runner, sut
+from .. import model as M
 
 ID = "C11"
-RULE = ("Generated operation sequences (up to 50 steps, up to 4 evaluators) over an alphabet of 17 valid texts (same experiment "
+RULE = ("Generated operation sequences (up to 50 steps, up to 4 evaluators) over an alphabet of 26 valid texts (same experiment "
         "name with different weights / groups, different names, different fields, a trivia variant of the same program, pairs that differ only in whitespace inside a string literal or after a // comment) and 11 "
         "invalid texts (syntactic: truncated, missing brace, two definitions, trailing junk; lexical: illegal character, unterminated block comment): "
         "new(valid), new(invalid), recompile(valid), recompile(current text), recompile(invalid) - also immediately repeated - "
         "recompile(grammatical text whose generated code does not compile today - known finding K1: must change nothing if it raises) and call. Model: each evaluator = 'a fresh evaluator built from the last text it accepted'. After EVERY step every "
         "evaluator is compared with its model on a fixed probe set (so an effect on another evaluator is seen); invalid texts "
-        "must raise every time and change nothing. Non-trivial = history containing a failed recompile followed by a further "
+        "must raise every time and change nothing. A second part derives from a generated program pairs of DIFFERENT neighbour texts that a normalising shortcut would confuse (whitespace / comment look-alikes / case / Unicode normal forms inside strings, ==-equal literals of another type, a label spelling the tokens of two groups, identifier vs string of the same text, one more digit in a weight) and demands that E(A).recompile(B) behaves exactly like a fresh E(B), type-sensitively, and back. Non-trivial = history containing a failed recompile followed by a further "
         "operation on the same evaluator; distinct by operation sequence.")
 ASSUMPTIONS = [
     "all valid texts declare a splitter, so a probe result is a deterministic function of (text, probe)",
@@ -37,6 +38,17 @@ VALID = [
     'def url { salt: "https://exp.example/b" splitters: uid return "A" weighted 1, "B" weighted 1, "C" weighted 1, "D" weighted 1 }',
     'def url { splitters: uid return "x /* 1 */" weighted 1, "y" weighted 1 }',
     'def url { splitters: uid return "x /* 2 */" weighted 1, "y" weighted 1 }',
+    # experiments named like attributes of the evaluator object
+    'def recompile { splitters: uid return "A" weighted 1, "B" weighted 1 }',
+    'def run_experiment { splitters: uid return "A" weighted 3, "B" weighted 1 }',
+    'def _checksum { splitters: uid return "A" weighted 1, "B" weighted 3 }',
+    'def __dict__ { splitters: uid return "A" weighted 1, "B" weighted 1, "C" weighted 1 }',
+    'def __call__ { splitters: uid if plan == "pro" { return "A" weighted 1 } else { return "B" weighted 1, "C" weighted 1 } }',
+    # ==-equal group values of different type / sign
+    'def num { splitters: uid return 1 weighted 1, 2 weighted 1 }',
+    'def num { splitters: uid return 1.0 weighted 1, 2.0 weighted 1 }',
+    'def num { splitters: uid return 0 weighted 1, 2 weighted 1 }',
+    'def num { splitters: uid return -0.0 weighted 1, 2 weighted 1 }',
     # a // comment ended by a line break (valid); INVALID[8] is the same text with that line break turned into a blank
     'def exp { splitters: uid // two arms\n return "A" weighted 1, "B" weighted 3 }',
 ]
@@ -70,13 +82,50 @@ def _text_of(ti):
     return MAYBE[int(ti[5:])] if isinstance(ti, str) else VALID[ti]
 
 
+def _canon(o):
+    """outcome with its type spelled out (1 and 1.0, 0 and -0.0 must not be confused)"""
+    if o[0] == "group":
+        return ("group", type(o[1]).__name__, repr(o[1]))
+    return tuple(o[:2])
+
+
+def _probe(ev, p):
+    return _canon(sut.call(ev, p))
+
+
+_DECLARED = {}
+
+
+def _declared(ti):
+    """the group values a text declares, with their types - read off the text by the reference lexer, so a process-wide cache
+    that poisons even the 'fresh' evaluator cannot hide a wrong value or type"""
+    if ti not in _DECLARED:
+        from .. import refgrammar
+
+        toks = refgrammar.lex(_text_of(ti))
+        out = set()
+        for i, (ty, tx) in enumerate(toks):
+            if ty == "WEIGHTED":
+                lt, lx = toks[i - 1]
+                neg = i >= 2 and toks[i - 2][0] == "MINUS"
+                if lt == "STRING":
+                    v = lx[1:-1]
+                elif lt == "INT":
+                    v = -int(lx) if neg else int(lx)
+                else:
+                    v = -float(lx) if neg else float(lx)
+                out.add(("group", type(v).__name__, repr(v)))
+        _DECLARED[ti] = out
+    return _DECLARED[ti]
+
+
 def _fresh(ti):
     if ti not in _FRESH:
         res = sut.compile_text(_text_of(ti))
         if res[0] != "ok":
             raise RuntimeError("valid text %d does not compile: %r" % (ti, res))
         ev = res[1]
-        _FRESH[ti] = [sut.call(ev, p) for p in PROBES]
+        _FRESH[ti] = [_probe(ev, p) for p in PROBES]
     return _FRESH[ti]
 
 
@@ -119,7 +168,12 @@ def judge(case):
 
     def check_all(step, op):
         for i, ev in enumerate(evs):
-            got = [sut.call(ev, p) for p in PROBES]
+            got = [_probe(ev, p) for p in PROBES]
+            undeclared = [g for g in got if g[0] == "group" and g not in _declared(model[i])]
+            if undeclared:
+                viol.append("after step %d %r: evaluator #%d returned %r, which is not a group (value and type) declared by its text "
+                            "%r" % (step, op, i, undeclared[0], _text_of(model[i])[:80]))
+                return False
             if got != _fresh(model[i]):
                 bad = next(j for j in range(len(PROBES)) if got[j] != _fresh(model[i])[j])
                 viol.append("after step %d %r: evaluator #%d should behave like a fresh evaluator of text %d (%r) but probe %r gives "
@@ -188,10 +242,10 @@ def judge(case):
                         if r[0] != "ok":
                             viol.append("step %d: recompile accepted %r but a fresh evaluator rejects it" % (step, MAYBE[op[2]]))
                             break
-                        _FRESH[key] = [sut.call(r[1], p) for p in PROBES]
+                        _FRESH[key] = [_probe(r[1], p) for p in PROBES]
                     model[i] = key
             elif kind == "call":
-                got = sut.call(evs[i], PROBES[op[2]])
+                got = _probe(evs[i], PROBES[op[2]])
                 if got != _fresh(model[i])[op[2]]:
                     viol.append("step %d: call on evaluator #%d gave %r, a fresh evaluator of its text gives %r" % (step, i, got, _fresh(model[i])[op[2]]))
                     break
@@ -202,7 +256,7 @@ def judge(case):
         # (this also attributes a process-wide state leak to the history that caused it, so the replay reproduces)
         try:
             ev = E(VALID[0])
-            if [sut.call(ev, p) for p in PROBES] != _fresh(0):
+            if [_probe(ev, p) for p in PROBES] != _fresh(0):
                 viol.append("after the history %r a new evaluator of a valid text behaves differently from before" % (case["ops"],))
         except Exception as e:
             viol.append("after the history %r constructing a new evaluator from a valid text raises %s: %s"
@@ -215,7 +269,8 @@ def judge(case):
 
 
 def judge_case(record):
-    return judge(record["case"])["viol"]
+    c = record["case"]
+    return (judge_neighbours(c) if "pick" in c else judge(c))["viol"]
 
 
 def selftest():
@@ -225,6 +280,108 @@ def selftest():
         assert refgrammar.classify(t) == "accept", t
     for t in INVALID:
         assert refgrammar.classify(t) == "reject", t
+
+
+# --------------------------------------------------------------------------- neighbour texts through a live evaluator
+@st.composite
+def neighbour_cases(draw):
+    from .. import gen
+
+    sk = draw(gen.programs(min_splitters=1, max_splitters=2, max_depth=1, max_branches=2, max_groups=3, strs=["a", "b c", "US", "x y"],
+                           salts=["s 1", "salt", "a b"], mixed_labels=draw(st.booleans())))
+    prog, classes = sk["prog"], sk["classes"]
+    iv = gen.interesting_values(prog, classes)
+    inputs = [M.enc_inputs(draw(gen.inputs_for(prog, classes, iv))) for _ in range(draw(st.integers(3, 6)))]
+    return {"prog": prog, "inputs": inputs, "pick": draw(st.lists(st.integers(0, 200), min_size=3, max_size=6)),
+            "direction": draw(st.booleans())}
+
+
+def judge_neighbours(case):
+    """E(A).recompile(B) must behave exactly like a fresh E(B) for texts A != B that a normalising shortcut would confuse"""
+    from .. import neighbours
+
+    nbs = neighbours.neighbours(case["prog"], case.get("only"))
+    viol = []
+    tags = set()
+    keys = []
+    if not nbs:
+        return {"viol": [], "nontrivial": False, "tags": ["neighbours:none"]}
+    for k in case["pick"]:
+        what, a, b = nbs[k % len(nbs)]
+        if not case["direction"]:
+            a, b = b, a
+        ta, tb = M.render(a), M.render(b)
+        ra, rb = sut.compile_text(ta), sut.compile_text(tb)
+        if ra[0] != "ok" or rb[0] != "ok":
+            continue  # whether such a text compiles at all is C07's business
+        tags.add("neighbour:" + what.split(" (")[0])
+        keys.append([ta, tb])
+        envs = [M.dec_inputs(e) for e in case["inputs"]]
+        # also probe with the literal contents themselves
+        fresh_b = [_canon(sut.call(rb[1], e)) for e in envs]
+        live = ra[1]
+        before = [_canon(sut.call(live, e)) for e in envs]
+        try:
+            live.recompile(tb)
+        except Exception as e:
+            viol.append("recompile raised %s: %s | held %r | new %r" % (type(e).__name__, e, ta, tb))
+            continue
+        after = [_canon(sut.call(live, e)) for e in envs]
+        # oracle 1 (independent of anything cached in this process): the reference interpreter on the NEW program
+        from .. import refinterp
+
+        bad_ref = None
+        for e, got in zip(envs, after):
+            try:
+                exp = refinterp.run(b, e)
+            except TypeError:
+                continue
+            if exp[0] == "return":
+                allowed = {("group", type(v).__name__, repr(v)) for v in refinterp.group_values(M.returns(b["body"])[exp[1]])}
+                if got not in allowed:
+                    bad_ref = (e, got, sorted(allowed))
+                    break
+            elif got[0] != "unroutable":
+                bad_ref = (e, got, "the unroutable error")
+                break
+        if bad_ref:
+            viol.append("%s: after recompile the evaluator gives %r for %r; the new text means %r | held %r | new %r"
+                        % (what, bad_ref[1], bad_ref[0], bad_ref[2], ta, tb))
+            continue
+        # oracle 2: texts that differ in the salt must give different assignments (64 units, a statement with >=2 groups)
+        sa = a["salt"]["v"] if a["salt"] else None
+        sb = b["salt"]["v"] if b["salt"] else None
+        free = [f for f in (b["splitters"] or []) if f not in M.condition_fields(b)]
+        if (sa or "") != (sb or "") and free and envs:
+            try:
+                exp = refinterp.run(b, envs[0])
+            except TypeError:
+                exp = ("unroutable",)
+            if exp[0] == "return" and sum(1 for g in M.returns(b["body"])[exp[1]]["groups"] if float(g["w"]) > 0) >= 2:
+                units = ["unit-%d" % i for i in range(64)]
+                live_a = sut.compile_text(ta)[1]
+                va = [_canon(sut.call(live_a, dict(envs[0], **{free[0]: u}))) for u in units]
+                vb = [_canon(sut.call(live, dict(envs[0], **{free[0]: u}))) for u in units]
+                if va == vb and len(set(va)) >= 2:
+                    viol.append("%s: the new salt %r gives exactly the assignments of the old salt %r for 64 units after recompile | "
+                                "held %r | new %r" % (what, sb, sa, ta, tb))
+                    continue
+        if after != fresh_b:
+            j = next(i for i in range(len(envs)) if after[i] != fresh_b[i])
+            viol.append("%s: after recompile the evaluator gives %r for %r, a fresh evaluator of the new text gives %r (before the "
+                        "recompile: %r) | held %r | new %r" % (what, after[j], envs[j], fresh_b[j], before[j], ta, tb))
+            continue
+        # and back again (the old text must not be mistaken for the current one either)
+        try:
+            live.recompile(ta)
+        except Exception as e:
+            viol.append("recompile back raised %s: %s" % (type(e).__name__, e))
+            continue
+        back = [_canon(sut.call(live, e)) for e in envs]
+        if back != before:
+            viol.append("%s: recompiling back to the first text does not restore its behaviour | %r <-> %r" % (what, ta, tb))
+    return {"viol": viol[:3], "nontrivial": bool(keys), "tags": sorted(tags), "key": keys,
+            "sample": {"held": keys[0][0][:200], "recompiled_to": keys[0][1][:200]} if keys else None}
 
 
 FIXED = [
@@ -241,3 +398,6 @@ def run(ctx, rec):
         if rec.violations:
             return
     runner.hyp_run(ctx, rec, "histories", histories(), judge, ctx.n(400, 2500))
+    if rec.violations:
+        return
+    runner.hyp_run(ctx, rec, "neighbour-texts", neighbour_cases(), judge_neighbours, ctx.n(150, 1000))
